@@ -380,6 +380,7 @@ def parent_main(pid, tier, seed):
     env = dict(os.environ)
     env["PYTHONHASHSEED"] = "0"
     env["VERIF_SEED"] = str(seed)
+    env["VERIF_SCRATCH_DIR"] = run_dir
     for i in range(nshards):
         out = os.path.join(run_dir, "shard_%d.json" % i)
         cmd = [sys.executable, os.path.join(ROOT, "run_check.py"), pid, "--tier", tier,
